@@ -45,6 +45,9 @@ def listening(nn, st):
         same = hasattr(user, "key") and hasattr(reg, "key") and user.key() == reg.key()
         if not same and not st.extra.get("p0_equal"):
             prob.append("RX_ADDR_P0 holds %r instead of the node's own pipe-0 address %r" % (reg, user))
+    sh = nn.radio.shadow_value(st, 0x0A)
+    if isinstance(sh, Ref) and isinstance(user, Ref) and sh.ident == user.ident:
+        prob.append("the shadow of RX_ADDR_P0 is the remembered own address object itself: the next transmission overwrites the remembered address in place")
     return (not prob), "; ".join(prob)
 
 
